@@ -161,7 +161,10 @@ class TextEngine:
                 op["host"] = {"pre": rng.choice(["", "pre", "pre "], "hpre"), "post": rng.choice(["post", " post", "", "x"], "hpost")}
             return op
         if self.prop == "C09":
-            return {"op": "init", "kind": rng.choice(["Paragraph", "Paragraph", "Header"], "kind"), "text": self._sentence(rng)}
+            op = {"op": "init", "kind": rng.choice(["Paragraph", "Paragraph", "Header"], "kind"), "text": self._sentence(rng)}
+            if rng.chance(0.35, "fromxml"):
+                op["from_xml"] = True  # parsed from XML as another producer wrote it, not built by odfdo
+            return op
         return {"op": "init", "toc_at": rng.choice(["first", "none"], "toc_at"), "outline": rng.choice([0, 0, 1, 2, 3, 10], "outline")}
 
     def gen_op(self, rng):
@@ -401,7 +404,30 @@ class TextEngine:
         name = op["op"]
         if name == "init":
             self.kind = op["kind"]
-            self.el = self._make(op["kind"], op["text"])
+            if op.get("from_xml"):
+                def enc(t):
+                    out = []
+                    i = 0
+                    while i < len(t):
+                        ch = t[i]
+                        if ch == "\t":
+                            out.append("<text:tab/>")
+                        elif ch == "\n":
+                            out.append("<text:line-break/>")
+                        elif ch == " " and (i == 0 or t[i - 1] == " " or i == len(t) - 1):
+                            out.append("<text:s/>")
+                        else:
+                            out.append(ch.replace("&", "&amp;").replace("<", "&lt;").replace(">", "&gt;"))
+                        i += 1
+                    return "".join(out)
+
+                tag = "text:h" if op["kind"] == "Header" else "text:p"
+                attr = ' text:outline-level="1"' if op["kind"] == "Header" else ""
+                self.el = Element.from_tag(f"<{tag}{attr}>{enc(op['text'])}</{tag}>")
+                if xmlref.raw_text(lx(self.el)) != op["text"]:
+                    raise HarnessError("XML encoder of the harness is wrong")
+            else:
+                self.el = self._make(op["kind"], op["text"])
             self._outcome = "init"
             return []
         if name == "restart":
